@@ -11,6 +11,9 @@ pub mod polling {
             ensures r.key == key, !r.readable, !r.writable,
         { unimplemented!() }
     }
+    /// opaque: the kernel's interest table lives behind &self (DESIGN 1.4)
+    #[verifier::external_body] pub struct Poller { _p: () }
+    #[verifier::external_body] pub struct Events { _p: () }
     #[derive(Clone, Copy)]
     pub enum PollMode { Oneshot, Level, Edge, EdgeOneshot }
 }
